@@ -107,7 +107,9 @@ const c14ProgSrc = `. as $s |
 
 var c14Prog = c14NewProg()
 
-func c14NewProg() *gojq.Code { return MustCompile(c14ProgSrc, gojq.WithVariables([]string{"$re", "$flags"})) }
+func c14NewProg() *gojq.Code {
+	return MustCompile(c14ProgSrc, gojq.WithVariables([]string{"$re", "$flags"}))
+}
 
 func okOf(v any) (any, bool) {
 	a, _ := v.([]any)
@@ -327,6 +329,24 @@ func c14CheckIndices(s, t string) string {
 	return ""
 }
 
+// c14Widths names the UTF-8 widths present in a subject (where byte and code-point positions part).
+func c14Widths(s string) string {
+	var w [5]bool
+	for _, r := range s {
+		w[utf8.RuneLen(r)] = true
+	}
+	out := "char widths"
+	for i := 1; i <= 4; i++ {
+		if w[i] {
+			out += fmt.Sprintf(" %d", i)
+		}
+	}
+	if s == "" {
+		out = "no characters"
+	}
+	return out
+}
+
 func c14Run(c *engine.Ctx) {
 	maxLen := 4
 	if !c.Quick() {
@@ -354,6 +374,7 @@ func c14Run(c *engine.Ctx) {
 			}
 		}
 		c.DistinctN(int64(len(c14Regexes) * len(c14Flags)))
+		c.Outcome("regex on subject with " + c14Widths(s))
 	}
 	c.Sample(map[string]any{"subject": "aé😀", "regex": "(?<x>a)|(?<y>b)", "flags": "gi", "builtins": "match test capture scan splits split/2 sub gsub"})
 
@@ -374,6 +395,7 @@ func c14Run(c *engine.Ctx) {
 			}
 		}
 		c.DistinctN(int64(1 + len(needles)))
+		c.Outcome("indexing on subject with " + c14Widths(s))
 	}
 	c.Sample(map[string]any{"subject": "あ😀́", "indexing": ".[i:j], .[i] for all i, j in -(n+1)..n+1; indices/index/rindex for every needle of length <= 2"})
 
